@@ -2,4 +2,4 @@ From Coq Require Import ZArith NArith List Extraction ExtrOcamlBasic.
 From FEC Require Import Models.DataLoaderM.
 Extraction Language OCaml.
 Set Extraction Output Directory ".".
-Extraction "c12_x.ml" read_gen run_gen current legacy init_state concrete_env spec_messages mkArgs mkTr mkMsg.
+Extraction "c12_x.ml" read_gen run_gen current legacy init_state concrete_env spec_messages diag mkArgs mkTr mkMsg.
